@@ -446,3 +446,26 @@ Proof.
   destruct (loco_step_limits _ _ _ _ _ Hm Es) as (m1 & H1 & H2).
   exists m, m1, m'. split; [exact Hpre|]. split; [exact Es|]. split; [exact H1|exact H2].
 Qed.
+
+(* The step-size bound of [soc_window] cannot be dropped: one accepted 1 s step of a small battery
+   (capacity 1000 J, rating 1000 W, SOC at the ramp start 0.2, limit = rating) drives the SOC to -0.8,
+   far below its minimum 0.1. *)
+Definition rs_w : ResState (F:=R) :=
+  Build_ResState 1%Z 1000 0 1000 0 0 0 0 0 0 0 0 0 0 0 (9/10) (8/10) (1/10) (2/10) (2/10) 1 1 25.
+Definition res_w : Res (F:=R) := Build_Res rs_w [25] [0; 1] [0; 1] [[[1; 1]; [1; 1]]] 1000 1000 (1/10) (9/10) None None.
+
+Theorem soc_window_refuted : exists r', res_solve_eta res_w 1000 0 1 1 = Ok r' /\
+  rs_min_soc rs_w <= rs_soc rs_w <= rs_max_soc rs_w /\ rs_soc (res_state r') < rs_min_soc rs_w - / 2.
+Proof.
+  unfold res_solve_eta, res_limit_checks, res_w, rs_w.
+  cbn [res_state rs_soc rs_max_soc rs_min_soc rs_pwr_disch_max rs_pwr_charge_max res_pwr_out_max res_energy_capacity].
+  unfold ensure, almost_le. rewrite eps3_val. numR.
+  assert (H1 : Rleb (2 / 10) (9 / 10) = true) by (apply Rleb_true; lra).
+  assert (H2 : Rleb (1 / 10) (2 / 10) = true) by (apply Rleb_true; lra).
+  assert (H3 : Rleb 0 (1000 + 0) = true) by (apply Rleb_true; lra).
+  assert (H4 : Rltb (1000 + 0) (1000 * (1 + / 1000)) = true) by (apply Rltb_true; lra).
+  assert (H5 : Rleb 0 (1 * 1) = true) by (apply Rleb_true; lra).
+  assert (H6 : Rltb 0 (1000 + 0) = true) by (apply Rltb_true; lra).
+  rewrite H1, H2, H3, H4, H5, H6. cbn [orb bind]. eexists. split; [reflexivity|].
+  cbn [res_state res_with rs_soc]. split; [lra|]. unfold Rdiv. rewrite Rinv_1. lra.
+Qed.
